@@ -34,6 +34,7 @@ ASSUMPTIONS = [
     "returned-state consistency (<A> of returned root k == energy k of the micro-iteration it was copied from, 1e-7 relative) is demanded only when the last executed sweep is lossless: integer bond limit >= prod(d), or (no site swapping) percent == 0 and limit >= the generic rank at every cut",
     "omega: the reported numbers are Ritz values of (H-omega)^2 (the optimiser squares the shifted MPO), inverse=-1: of -H; both are handled by taking A = inverse*(H-omega)^2 / inverse*H as the reference operator",
     "complex H (and real H whose MPO tensors are complex) is run from a complex start state (a real Mps cannot hold complex tensors: Matrix asserts); StackedMpo and site swapping are never combined with omega; site swapping only for 2site, general Model, fixed criterion, no Jordan-Wigner strings, requested through CompressConfig entries of the procedure",
+    "LAPACK failure is not judged: scipy.linalg.eigh (driver dsyevr) raises LinAlgError('Internal Error.') for a finite symmetric 208x208 local matrix whose lowest eigenvalue is ~200-fold degenerate (omega targeting) under the single-threaded OpenBLAS the checks run with, while the same call succeeds multi-threaded and with every other driver: counted as a refusal (seen once in 3000 thorough cases)",
     "procedures have >= 2 sweeps (with one sweep optimize_mps has no state to return and trips its own assert)",
     "Davidson kernel: Ritz values >= exact (slack 1e-9*max(1,||A||)); returned vectors normalised to 1e-6; value == Rayleigh quotient of its vector (1e-8*||A||); a pair flagged converged by davidson1 has true residual <= 10*sqrt(tol) + 1e-9*||A|| (the code's own criterion is |de| < tol and |r| < sqrt(tol)) and lies within that residual of an exact eigenvalue; all guesses of one call share a dtype (as in gs.single_sweep). The Gram matrix of the trial vectors is read through the documented callback hook after every cycle; when a run fails any of these checks and the Gram error exceeded 1e-9 all failures are reported under the one signature trial-subspace-loses-orthonormality",
     "reference matrix assembled like rv.dense.op_dense (own grouping by site, basis.op_mat local matrices) but with scipy.sparse Kronecker products; Hermiticity and sector conservation verified per case; forced direct solver only for prod(d) <= 400; omega with prod(d) > 600 keeps bond limits <= rank + 2 (two-layer environments)",
@@ -593,7 +594,7 @@ def run_chain_case(ctx):
 
     try:
         energies, res = ctx.lib(_optimize, start, mpo_run, omega=omega, what="optimize_mps",
-                                refusals=("primme",))
+                                refusals=("primme", "LinAlgError: Internal Error"))
     finally:
         calls = list(TRACE["calls"])
         sweeps = [dict(s) for s in TRACE["sweeps"]]
